@@ -5,7 +5,7 @@ from sim.props.base import Prop, gen_session
 class C17(Prop):
     id = "C17"
     level = "exploration"
-    RUNS = {"quick": 900, "thorough": 16000}
+    RUNS = {"quick": 1800, "thorough": 16000}
     BUDGET = {"quick": 80, "thorough": 900}
     ORACLES = ("O-TABLES",)
     RULE = ("seeded sessions on all classes (named and unnamed points / functions, 1-3 solves, TAGGED peer, both "
